@@ -64,6 +64,7 @@ type Config struct {
 	PScope     float64
 	NSwitches  int
 	UseSwitchU bool // include a '_' fallback case most of the time
+	Budget     int  // statements per file (soft)
 }
 
 func DrawConfig(r *rng.R) *Config {
@@ -88,6 +89,14 @@ func DrawConfig(r *rng.R) *Config {
 	c.PAuto = on(0.5, 0.4)
 	c.PScope = on(0.5, 0.4)
 	c.NSwitches = r.Range(1, 3)
+	c.Budget = 120
+	if r.P(0.03) {
+		// scale mode: scripts that split into many (>= 64, >= 100) chunks
+		c.MaxItems = r.Range(2, 6)
+		c.MaxDepth = r.Range(3, 4)
+		c.MaxStmts = r.Range(6, 14)
+		c.Budget = r.Range(150, 400)
+	}
 	return c
 }
 
@@ -103,6 +112,7 @@ type g struct {
 	autos   []string
 	scripts []string
 	lits    []string
+	left    int
 	// colonOnly: poryswitch cases use the ':' form only. Inside moves( ... ) the brace form
 	// is rejected by the compiler at b12758c ("expected movement command, but got '}'": the
 	// list parser looks for ')' as its end) - a C12 matter, noted in DESIGN.md, not ours.
@@ -146,6 +156,7 @@ func Gen(r *rng.R, c *Config) *File {
 		}
 	}
 	x.tinySteps = r.P(0.1)
+	x.left = c.Budget
 	// fonts
 	x.f.Fonts = x.fonts()
 	n := r.Range(1, c.MaxItems)
@@ -384,7 +395,12 @@ func (x *g) freshLiteral(long bool) string {
 				sb.WriteByte(' ')
 			}
 		}
-		sb.WriteString(words[r.Intn(len(words))])
+		if r.P(0.01) {
+			// a word longer than any sensible buffer
+			sb.WriteString(strings.Repeat("W", r.Range(250, 300)))
+		} else {
+			sb.WriteString(words[r.Intn(len(words))])
+		}
 	}
 	if r.P(0.15) {
 		sb.WriteString("$")
@@ -760,7 +776,8 @@ func (x *g) block(depth int, inLoop, inBreak, braceEnd bool) []string {
 	r := x.r
 	var t []string
 	n := r.Range(0, x.c.MaxStmts)
-	for i := 0; i < n; i++ {
+	for i := 0; i < n && x.left > 0; i++ {
+		x.left--
 		k := r.Intn(16)
 		if depth >= x.c.MaxDepth && k >= 6 && k <= 11 {
 			k = 0
@@ -926,4 +943,21 @@ func isTop(t string) bool {
 		return true
 	}
 	return false
+}
+
+// Variant returns a font file with the same font ids and default but freshly drawn
+// metrics (another project's font config under the same path).
+func (f *FontFile) Variant(r *rng.R) *FontFile {
+	g := &FontFile{DefaultFontID: f.DefaultFontID, Fonts: map[string]interface{}{}, ids: append([]string(nil), f.ids...)}
+	for _, id := range f.ids {
+		widths := map[string]int{"default": r.Range(3, 9), " ": r.Range(2, 5)}
+		for _, ch := range "abcdefgilmwHWxyz.,!" {
+			if r.P(0.6) {
+				widths[string(ch)] = r.Range(2, 10)
+			}
+		}
+		widths["{PLAYER}"] = r.Range(20, 60)
+		g.Fonts[id] = map[string]interface{}{"widths": widths, "maxLineLength": r.Range(40, 220), "numLines": r.Range(1, 3), "cursorOverlapWidth": r.Range(0, 12)}
+	}
+	return g
 }
